@@ -18,7 +18,8 @@ open IsoVerif.Gen IsoVerif.Model.C10 IsoVerif.Lemmas.C10
 inductive Handling where
   | resetPerTask     -- cleared at the top of every chromosome task (lemma `detected_component`)
   | idOnly           -- a running number that never reaches an output (lemma `id_counters_component`)
-  | logOnly          -- only decides which log level a message gets (lemma `duplicate_counter_component`)
+  | logOnly          -- every read is the test of an `if` that guards logger calls only (generated `counter_reads`;
+                     -- lemma `duplicate_counter_component`)
   | notInPipeline    -- lives in a module that isoquant.py does not import
   deriving DecidableEq, Repr
 
@@ -39,6 +40,10 @@ def handlingOf (item : String) : Option Handling :=
 def justified (item : String) : Bool :=
   match handlingOf item with
   | some .resetPerTask => (tableGet "construct_models_in_parallel" chr_task_resets).contains item
+  | some .logOnly =>
+    -- a numeric counter, and every read of it is the test of an `if` that guards logger calls only
+    numeric_counters.contains item
+      && (counter_reads.filter (fun r => r.1 == item)).all (fun r => r.2.2 == "log")
   | some _ => true
   | none => false
 
